@@ -1597,6 +1597,30 @@ impl<K: Hash + Eq, V, RH: BuildHasher, FH: BuildHasher, GH: BuildHasher>
     }
 }
 
+/// Verification hooks (feature `verif-hooks`): read-only views of the three lists.
+#[cfg(feature = "verif-hooks")]
+impl<K: Hash + Eq, V, RH, FH, GH> TwoQueueCache<K, V, RH, FH, GH> {
+    /// The recent list.
+    pub fn verif_recent(&self) -> &RawLRU<K, V, DefaultEvictCallback, RH> {
+        &self.recent
+    }
+
+    /// The frequent list.
+    pub fn verif_frequent(&self) -> &RawLRU<K, V, DefaultEvictCallback, FH> {
+        &self.frequent
+    }
+
+    /// The ghost list.
+    pub fn verif_ghost(&self) -> &RawLRU<K, V, DefaultEvictCallback, GH> {
+        &self.ghost
+    }
+
+    /// The quota of the recent list.
+    pub fn verif_recent_quota(&self) -> usize {
+        self.recent_size
+    }
+}
+
 impl<K: Hash + Eq, V, RH: BuildHasher, FH: BuildHasher, GH: BuildHasher> fmt::Debug
     for TwoQueueCache<K, V, RH, FH, GH>
 {
